@@ -6,7 +6,7 @@ from hypothesis import strategies as st
 
 from ..core import Sub, Violation, quiet, package, dense
 from .. import gen, pkg
-from .C07 import build_bay, bay_layout, bay_case
+from .C07 import build_bay, bay_layout, bay_case, force, skin_y
 
 ASSUMPTIONS = [
     'stiffeners sit on skin-cut positions; the skin laminate is uniform over the bay (the partition claim is about that case)',
@@ -137,6 +137,17 @@ def check_bay(case, ctx):
             p_.Nxx, p_.Nyy, p_.Nxy = 1., 1., 0.
         gunit = np.max(np.abs(dense(uncut.calc_kG0(silent=True))))
     gsc = (abs(case['N'][0]) + abs(case['N'][1]) + abs(case['N'][2])) * gunit + abs(case['Fx']) * gunit / case['b'] or 1.
+    # force vector: a skin point load (anywhere, also exactly on a cut / stiffener foot) does not depend on the partition
+    if case.get('forces_skin'):
+        fvs = []
+        for b_ in (spb, skin, uncut):
+            b_.forces_skin = [[f['x'] * case['a'], skin_y(f, case), f['fx'], f['fy'], f['fz']] for f in case['forces_skin']]
+            with package(name + '.fext'):
+                fvs.append(np.asarray(b_.calc_fext(silent=True), dtype=float))
+        fsc = sum(abs(f['fx']) + abs(f['fy']) + abs(f['fz']) for f in case['forces_skin']) or 1.
+        ctx.close('partition.fext', fvs[1], fvs[2], 1e-12, bucket=name + '.partition.fext', scale=fsc)
+        ctx.close('fext.skin-range', fvs[0][:n0], fvs[2], 1e-12, bucket=name + '.fext.skin-range', scale=fsc)
+        ctx.close('fext.stiffener-range', fvs[0][n0:], np.zeros(size - n0), 0., bucket=name + '.fext.stiffener-range', atol=1e-12 * fsc)
     ctx.close('partition.k0', sK0, uK0, TOL, bucket=name + '.partition.k0')
     ctx.close('partition.kG0', sKG, uKG, TOL, bucket=name + '.partition.kG0', scale=gsc)
     ctx.close('partition.kM', sKM, uKM, TOL, bucket=name + '.partition.kM')
@@ -262,6 +273,9 @@ def _bay_strategy(draw, tier='quick'):
     case['N'] = [draw(gen.fl(-100., 100.)) for _ in range(3)]
     case['Fx'] = draw(gen.fl(-1000., 1000.))
     case['Nxxf'] = draw(gen.fl(-100., 100.))
+    case['forces_skin'] = draw(st.lists(force(cte=True), min_size=0, max_size=3))
+    for f in case['forces_skin']:
+        f['ycut'] = draw(st.one_of(st.none(), st.integers(0, 5)))
     return case
 
 
